@@ -319,17 +319,31 @@ def _find(interp, s, sub, start, reverse, raise_on_missing):
         if raise_on_missing:
             raise _pyraise(ValueError('substring not found'))
         return -1
-    p, m, q = decompose(interp, t, [None, None, None], 'find')
+    p, m, q = _first_occurrence(interp, t, u, reverse, 'find')
+    return wrap(z3.Length(p))
+
+
+def _first_occurrence(interp, t, u, reverse, base):
+    """pieces (p, m, q) with t == p . m . q, m == u the first (last) occurrence of u in t; requires that t
+    contains u (established by the caller).  Searching the same string for the same needle again gives the
+    SAME pieces (their defining facts are already on the path), so that two `find`s agree syntactically."""
+    st = interp.st
+    cache = st.ghost.setdefault('__occurrences__', {})
+    key = (t.get_id(), u.sexpr(), bool(reverse))
+    ent = cache.get(key)
+    if ent is not None and ent[0] <= frozenset(x.get_id() for x in st.scopes):
+        return ent[1]
+    p, m, q = decompose(interp, t, [None, None, None], base)
     st.assume(m == u)
     single = z3.is_string_value(u) and len(u.as_string()) == 1
     if single:
         st.assume(z3.Not(z3.Contains(q if reverse else p, u)))
+    elif reverse:
+        st.assume(z3.LastIndexOf(t, u) == z3.Length(p))
     else:
-        if reverse:
-            st.assume(z3.LastIndexOf(t, u) == z3.Length(p))
-        else:
-            st.assume(z3.IndexOf(t, u, 0) == z3.Length(p))
-    return wrap(z3.Length(p))
+        st.assume(z3.IndexOf(t, u, 0) == z3.Length(p))
+    cache[key] = (frozenset(x.get_id() for x in st.scopes), (p, m, q), t)
+    return p, m, q
 
 
 def _split_once(interp, s, sep, reverse=False):
@@ -339,15 +353,7 @@ def _split_once(interp, s, sep, reverse=False):
     u = _s(sep)
     if not st.fork(wrap(z3.Contains(t, u))):
         return False, wrap(t), None
-    p, m, q = decompose(interp, t, [None, None, None], 'split')
-    st.assume(m == u)
-    single = z3.is_string_value(u) and len(u.as_string()) == 1
-    if single:
-        st.assume(z3.Not(z3.Contains(q if reverse else p, u)))
-    elif reverse:
-        st.assume(z3.LastIndexOf(t, u) == z3.Length(p))
-    else:
-        st.assume(z3.IndexOf(t, u, 0) == z3.Length(p))
+    p, m, q = _first_occurrence(interp, t, u, reverse, 'split')
     return True, wrap(p), wrap(q)
 
 
@@ -360,26 +366,35 @@ def _char_class_re(chars):
 
 
 def _strip(interp, s, chars, left, right):
+    """s.strip/lstrip/rstrip(chars): the result is an uninterpreted function of s (so that equal
+    arguments give syntactically equal results), defined by: s == a . r . b, a and b consist of
+    characters of `chars` only, r neither starts (left) nor ends (right) with such a character."""
     st = interp.st
     t = _s(s)
     if chars is None:
         raise Unsupported('strip() of Unicode white space (bounded stand-in only)')
     if isinstance(chars, Sym) or not chars:
         raise Unsupported('strip with symbolic character set')
-    cls = _char_class_re(chars)
-    lens = []
-    a, m, b = decompose(interp, t, [None, None, None], 'strip')
-    if left:
-        st.assume(z3.InRe(a, cls))
-        st.assume(z3.And(*[z3.Not(z3.PrefixOf(z3.StringVal(c), m)) for c in chars]))
-    else:
-        st.assume(z3.Length(a) == 0)
-    if right:
-        st.assume(z3.InRe(b, cls))
-        st.assume(z3.And(*[z3.Not(z3.SuffixOf(z3.StringVal(c), m)) for c in chars]))
-    else:
-        st.assume(z3.Length(b) == 0)
-    return wrap(m)
+    kind = ('l' if left else '') + ('r' if right else '')
+    f = z3.Function('str.%sstrip[%r]' % ({'lr': '', 'l': 'l', 'r': 'r'}[kind], chars), z3.StringSort(),
+                    z3.StringSort())
+    r = f(t)
+    key = ('__strip__', kind, chars, t.get_id())
+    if key not in st.ghost:
+        st.ghost[key] = t
+        cls = _char_class_re(chars)
+        a = _fresh(interp, 'strip.l') if left else z3.StringVal('')
+        b = _fresh(interp, 'strip.r') if right else z3.StringVal('')
+        st.assume(t == _cat([a, r, b]))
+        if left:
+            st.assume(z3.InRe(a, cls))
+            st.assume(z3.And(*[z3.Not(z3.PrefixOf(z3.StringVal(c), r)) for c in chars]))
+        if right:
+            st.assume(z3.InRe(b, cls))
+            st.assume(z3.And(*[z3.Not(z3.SuffixOf(z3.StringVal(c), r)) for c in chars]))
+        _decomps(interp, t).append([x for x in (a, r, b) if not (z3.is_string_value(x) and x.as_string() == '')])
+        note_concat(interp, t, [a, r, b])
+    return wrap(r)
 
 
 def _upred(interp, name, s):
